@@ -183,7 +183,7 @@ def rule_pk_add_column(spec, ospecs, res):
         if o["kind"] == "add_column" and spec["tables"][o["table"]]["columns"][o["column"]].get("primary_key"):
             # the column type becomes SERIAL / gets AUTO_INCREMENT / IDENTITY only on the invoke side
             def n(s):
-                s = re.sub(r"(ADD (?:COLUMN )?(?:\"(?:[^\"]|\"\")*\"|`[^`]*`|\[[^\]]*\]|\S+) )(\w+(?:\([^)]*\))?)", "\\1\u00a7T", s)
+                s = re.sub(r"(ADD (?:COLUMN )?(?:\"(?:[^\"]|\"\")*\"|`[^`]*`|\[[^\]]*\]|\S+) )(\w+(?: PRECISION| VARYING)?(?:\([^)]*\))?)", "\\1\u00a7T", s)
                 return s.replace(" AUTO_INCREMENT", "").replace(" IDENTITY", "").replace(" PRIMARY KEY", "")
             return n
     return None
@@ -357,14 +357,6 @@ def classify(failure):
 
 
 # ---------------------------------------------------------------------------------------------
-
-
-def canon_alter_ws(text):
-    """_alter_column puts ', ' between table and column name and ',\\n<11 spaces>' elsewhere"""
-    out = []
-    for line_group in [text]:
-        out.append(line_group)
-    return text
 
 
 def model_compare(ctx, case, pending):
